@@ -21,6 +21,7 @@ from harness import common as C
 from harness.common import cbool, clist
 
 PID = "C06"
+T_BASES = {"ble": "BLE", "dot15d4": "Dot15d4", "esb": "ESB", "unifying": "Unifying", "phy": "Phy"}
 BASE_IDS = {"ble.BLE", "dot15d4.Dot15d4", "zigbee.Zigbee", "rf4ce.RF4CE", "esb.ESB", "unifying.Unifying", "phy.Phy"}
 DOMAIN_KEYS = ["ble", "dot15d4", "esb", "unifying", "phy"]
 RES = {"ok": "ROk", "false": "RFalse", "UnsupportedDomain": "(RRaise EUnsupportedDomain)",
@@ -444,6 +445,20 @@ def run(ctx):
     for part in chunk(oenvs, NP):
         jobs.append(("ops", part, {"mode": "eval", "ops": [[e["id"], e["cmds"], e["caps"], e["seed"], e["pre"]] for e in part]}))
     jobs.append(("di", dis, {"mode": "eval", "di": [[e["words"], e["adds"], e["domain"], e["cap"]] for e in dis]}))
+    # device-originated events interleaved with operations, base connectors, phase A: everything advertised
+    EVENTS = {"ble": ["@connected", "@disconnected", "@synchronized", "@desynchronized", "@triggered"],
+              "dot15d4": ["@jammed", "@ed_sample"], "esb": ["@jammed"], "unifying": ["@jammed"], "phy": ["@jammed"]}
+    BASE_OF = {"ble": "ble.BLE", "dot15d4": "dot15d4.Dot15d4", "esb": "esb.ESB", "unifying": "unifying.Unifying", "phy": "phy.Phy"}
+    evA = []
+    for dk, bid in BASE_OF.items():
+        pm = tr.get("prefix_methods", {}).get("%s.%s" % (dk, T_BASES[dk]), [])
+        words = [[ev] for ev in EVENTS[dk]] + [[m, ev] for m in pm for ev in EVENTS[dk]]
+        if ctx.thorough:
+            words += [[m, e1, e2] for m in pm for e1 in EVENTS[dk] for e2 in EVENTS[dk]]
+        for w in words:
+            evA.append({"id": bid, "dk": dk, "cmds": ALL32, "caps": 0, "seq": w, "seed": ctx.rng.randrange(1 << 30)})
+    for part in chunk(evA, 3):
+        jobs.append(("seqs", part, {"mode": "eval", "seqs": [[e["id"], e["cmds"], e["caps"], e["seed"], e["seq"]] for e in part]}))
     with cf.ThreadPoolExecutor(max_workers=14) as ex:
         futs = [ex.submit(C.run_impl, "C06.py", j[2]) for j in jobs]
         for j, fu in zip(jobs, futs):
@@ -469,6 +484,14 @@ def run(ctx):
         for cm, cp in ok_masks:
             for w in words:
                 senvs.append({"i": i, "id": p["id"], "cmds": cm | ss, "caps": cp, "seq": w, "seed": ctx.rng.randrange(1 << 30)})
+    # phase B of the event sequences: for every command an event step was seen transmitting with everything
+    # advertised, the same sequence on the interface that advertises everything BUT that command
+    for e in evA:
+        for k, st in enumerate(e["obs"]["steps"]):
+            if e["seq"][k].startswith("@"):
+                for b in sorted(set(x for x in st.get("bits", []) if x >= 0)):
+                    senvs.append({"i": None, "id": e["id"], "cmds": ALL32 & ~(1 << b), "caps": 0, "seq": e["seq"],
+                                  "seed": ctx.rng.randrange(1 << 30), "events_only": True})
     with cf.ThreadPoolExecutor(max_workers=NP) as ex:
         parts = chunk(senvs, NP)
         futs = [ex.submit(C.run_impl, "C06.py", {"mode": "eval", "seqs": [[e["id"], e["cmds"], e["caps"], e["seed"], e["seq"]] for e in part]}) for part in parts]
@@ -571,6 +594,8 @@ def run(ctx):
         if e["id"] in o2_done:
             continue
         for k, st in enumerate(e["obs"]["steps"]):
+            if e.get("events_only") and not e["seq"][k].startswith("@"):
+                continue        # base connectors: their unguarded operations (start, stop ...) are not subject to this oracle
             bad_ = outside(e["cmds"], st)
             if bad_:
                 o2_done.add(e["id"])
@@ -636,6 +661,10 @@ def run(ctx):
         "operation_runs": len(oenvs), "operation_results": op_res,
         "operation_runs_after_another_operation": sum(1 for e in oenvs if e.get("pre")),
         "role_connector_sequences": len(senvs),
+        "event_sequences_everything_advertised": len(evA),
+        "event_sequences_one_command_withdrawn": sum(1 for e in senvs if e.get("events_only")),
+        "event_steps_that_transmitted": sorted({"%s after %s: %s" % (e["seq"][k], e["seq"][:k], st["sent"]) for e in evA
+                                                for k, st in enumerate(e["obs"]["steps"]) if e["seq"][k].startswith("@") and st.get("sent")})[:20],
         "role_connector_sequence_steps": sum(len(e["obs"]["steps"]) for e in senvs),
         "operations_reading_connector_state_in_a_condition": {p["id"]: p["state_reads"] for p in gen.ops_all if p.get("state_reads")},
         "operations_that_transmitted_at_least_once": len(ops_sent),
